@@ -14,6 +14,7 @@ import ThriftVerif.Core.VL
   * `intoMap`      – the loop stores into another map            (fastgo bitset inverse, ResolveImports, loadConfig)
   * `NS.add`       – the loop calls (*namespace).Add             (importManager.init)
   * `sortedBy`     – the loop collects, then sorts by a key      (ServiceThrows; go/format over an import block)
+  * `keepOnly`     – the loop deletes the entries failing a test (renderByTemplate: imports the file never mentions)
   * `anyFails`     – the loop returns the first error            (CheckOptionGrammar and what it calls)
   * `sumOver`      – the loop adds up sizes                      ((*Thrift).BLength)
   * `replace`      – the loop builds strings.NewReplacer's args  (insertionPointReplacer.Replace)
@@ -98,6 +99,13 @@ def bytesLe : Bytes → Bytes → Bool
   | [], _ => true
   | _ :: _, [] => false
   | a :: r, b :: s => if a < b then true else if b < a then false else bytesLe r s
+
+/-! ## delete while ranging -/
+
+/-- `for k, v := range m { if !keep(k, v) { delete(m, k) } }` with a `keep` that looks at the entry
+alone: the entries that survive (Go allows deleting during the range; every entry present at the
+start is visited at most once and decided on its own). -/
+def keepOnly {α} (keep : α → Bool) (es : List α) : List α := es.filter keep
 
 /-! ## first error wins -/
 
@@ -210,10 +218,17 @@ def encFileDescriptor (filepath : Bytes) (includes namespaces : List (Bytes × B
   encEmptyStructList 4 ++ encEmptyStructList 5 ++ encEmptyStructList 6 ++ encEmptyStructList 7 ++
   encEmptyStructList 8 ++ encEmptyStructList 9 ++ encEmptyStructList 10 ++ [0]
 
-/-- order in which meta.write now writes the entries of a map: by the encoded key bytes
-(`bytes.Compare` of the 4-byte length prefix followed by the key; the code breaks ties by the encoded
-value, which cannot occur between entries of one `map<string,…>`) -/
-def byEncodedKey (a b : Bytes × Bytes) : Bool := bytesLe (encStr a.1) (encStr b.1)
+/-- lexicographic order on (encoded key, encoded value): `bytes.Compare` of the key encodings,
+and of the value encodings when those are equal -/
+def lexLe (a b : Bytes × Bytes) : Bool := if a.1 = b.1 then bytesLe a.2 b.2 else bytesLe a.1 b.1
+
+/-- order in which meta.write writes the entries of a map: by the encoded key bytes, then by the
+encoded value bytes. The tie-break matters: the const-value maps of the reflection descriptor are
+keyed by *pointers*, so two entries can have keys of equal content. -/
+def byEncodedKey (a b : Bytes × Bytes) : Bool := lexLe (encStr a.1, encStr a.2) (encStr b.1, encStr b.2)
+
+/-- the order WITHOUT the tie-break (a regression seen in review: "keys of a map are distinct") -/
+def byEncodedKeyOnly (a b : Bytes × Bytes) : Bool := bytesLe (encStr a.1) (encStr b.1)
 
 /-- `write` for a map field as the code does it: collect the entries in iteration order, sort
 them by their encoding, then write -/
@@ -223,6 +238,27 @@ def encMapFieldSorted (fid : Nat) (es : List (Bytes × Bytes)) : Bytes :=
 /-- `meta.Marshal(fd)` (same FileDescriptor shape as `encFileDescriptor`) with `es` in iteration order -/
 def encFileDescriptorSorted (filepath : Bytes) (includes namespaces : List (Bytes × Bytes)) : Bytes :=
   encFileDescriptor filepath (sortedBy byEncodedKey includes) (sortedBy byEncodedKey namespaces)
+
+/-! ### ConstValueDescriptor maps (`map<ConstValueDescriptor, ConstValueDescriptor>`, keyed by pointer) -/
+
+/-- `meta.Marshal` of a `ConstValueDescriptor{Type: STRING, ValueString: s}`: type (i32 2), value_double,
+value_int, value_string, value_bool, value_identifier — every required field is written, the optional
+list / map / extra are nil and skipped. -/
+def encCVStr (s : Bytes) : Bytes :=
+  [8, 0, 1, 0, 0, 0, 2] ++ [4, 0, 2, 0, 0, 0, 0, 0, 0, 0, 0] ++ [10, 0, 3, 0, 0, 0, 0, 0, 0, 0, 0] ++
+  ([11, 0, 4] ++ encStr s) ++ [2, 0, 5, 0] ++ [11, 0, 8, 0, 0, 0, 0] ++ [0]
+
+def encCVEntry (e : Bytes × Bytes) : Bytes := encCVStr e.1 ++ encCVStr e.2
+
+def byEncodedCV (a b : Bytes × Bytes) : Bool := lexLe (encCVStr a.1, encCVStr a.2) (encCVStr b.1, encCVStr b.2)
+
+/-- `meta.Marshal` of a `ConstValueDescriptor{Type: MAP, ValueMap: m}` whose keys and values are string
+constants; `es` = the entries in iteration order (keys may have equal content). -/
+def encCVMap (es : List (Bytes × Bytes)) : Bytes :=
+  [8, 0, 1, 0, 0, 0, 5] ++ [4, 0, 2, 0, 0, 0, 0, 0, 0, 0, 0] ++ [10, 0, 3, 0, 0, 0, 0, 0, 0, 0, 0] ++
+  [11, 0, 4, 0, 0, 0, 0] ++ [2, 0, 5, 0] ++
+  ([13, 0, 7, 12, 12] ++ be32 es.length ++ emit encCVEntry (sortedBy byEncodedCV es)) ++
+  [11, 0, 8, 0, 0, 0, 0] ++ [0]
 
 /-- one line of fastgo's `import ( … )` block: `fmt.Fprintf(s, "%s %q\n", alias, path)`
 (paths here contain no byte that %q escapes) -/
